@@ -18,6 +18,9 @@ Prop_C15 ==
     IN /\ DeclRaw(c.buf, c.off, raw)
        /\ g.ok <=> (raw.ok /\ IsUtf8(SubSeq(c.buf, raw.start + 1, raw.start + raw.len)))
        /\ g.ok => (g.start = raw.start /\ g.len = raw.len)
+       \* the iterative formulations used on long tables agree with the recursive reference ones
+       /\ \A p \in 1..(Len(c.buf) + 1) : FirstNul(c.buf, p) = FirstNulRec(c.buf, p)
+       /\ IsUtf8(c.buf) = IsUtf8Rec(c.buf)
 
 Exp == LET r == IF c.raw THEN GetRaw(c.buf, c.off) ELSE Get(c.buf, c.off)
        IN IF r.ok THEN [out |-> "ok", s |-> RangeJ(r.start, r.len), n |-> r.len] ELSE [out |-> "err"]
